@@ -174,6 +174,7 @@ SPECS["C05"] = dict(
     harnesses=[
         H("core_h", "pb_consec_notc", stubbing=True, timeout=900, mem_gb=16, symbolic="node state, block round/author", asserts="commit channel gets exactly b0 iff b0.round+1==b1.round and b0 not yet delivered"),
         H("core_h", "pb_gap_notc", stubbing=True, timeout=900, mem_gb=16, symbolic="as above, rounds 5,7", asserts="a round gap between b0 and b1 never commits"),
+        H("core_h", "pb_gap_b1tc_notc", stubbing=True, timeout=900, mem_gb=16, symbolic="as pb_gap_notc; the stored b1 (round 7) carries a TC of round 6", asserts="a TC on b1 never stands in for round adjacency: no commit"),
         H("core_h", "pb_consec_delivered_notc", stubbing=True, timeout=900, mem_gb=16, symbolic="as above, b0 already delivered", asserts="nothing delivered twice"),
         H("core_h", "pb_first_notc", stubbing=True, timeout=900, mem_gb=16, symbolic="as above, rounds 1,2 above genesis", asserts="first commit delivers block 1 only (no genesis)"),
         H("core2_h", "hv_single", stubbing=True, timeout=900, mem_gb=16, symbolic="vote round/author/validity, node state", asserts="a vote never causes a commit"),
@@ -330,7 +331,9 @@ SPECS["C15"] = dict(
         H("crypto_r", "c15_pk_decode_len4", profile="R", pkg="crypto", stubbing=True, timeout=900, mem_gb=16, symbolic="every 4-character ASCII string", asserts="PublicKey::decode_base64 returns Ok or Err, never panics"),
         H("crypto_r", "c15_pk_decode_len8", profile="R", pkg="crypto", stubbing=True, timeout=900, mem_gb=16, symbolic="every 8-character ASCII string", asserts="as len4"),
         H("crypto_r", "c15_sk_decode_len4", profile="R", pkg="crypto", stubbing=True, timeout=900, mem_gb=16, symbolic="every 4-character ASCII string", asserts="SecretKey::decode_base64 never panics"),
-        H("crypto_r", "c15_pk_decode_len44", profile="R", pkg="crypto", tier="thorough", stubbing=True, timeout=3000, mem_gb=24, symbolic="every 44-character ASCII string", asserts="as len4"),
+        H("crypto_r", "c15_pk_decode_len44", profile="R", pkg="crypto", stubbing=True, timeout=1500, mem_gb=24, symbolic="every 44-character ASCII string (the length of a genuine key)", asserts="as len4"),
+        H("crypto_r", "c15_pk_decode_len48", profile="R", pkg="crypto", stubbing=True, timeout=1500, mem_gb=24, symbolic="every 48-character ASCII string (decodes to more bytes than a key holds)", asserts="as len4"),
+        H("crypto_r", "c15_sk_decode_len92", profile="R", pkg="crypto", tier="thorough", stubbing=True, timeout=3000, mem_gb=24, symbolic="every 92-character ASCII string (longer than a secret key)", asserts="as len4"),
     ],
 )
 
